@@ -169,6 +169,12 @@ func opKind(op string) string {
 // replay builds a fresh instance and applies hist. Returns nil if a step that used to pass now fails.
 func replay(cfg SeqConfig, hist []string, res *Result, count bool) Instance {
 	inst := cfg.Fresh()
+	// a prefix that was checked when it was first explored need not be checked again while it is replayed
+	rp, _ := inst.(interface{ SetReplay(bool) })
+	if rp != nil {
+		rp.SetReplay(true)
+		defer rp.SetReplay(false)
+	}
 	for _, op := range hist {
 		if v := inst.Apply(op); v != nil {
 			inst.Close()
